@@ -114,3 +114,213 @@ func omitFirst(p *core.Prog, r *core.Result) {
 	}
 	r.Floor("tag_option_readers", n, 2)
 }
+
+// R20 RESOLVER-IDENTITY: the omitempty resolvers (closures of type
+// func(reflect.Value) (reflect.Value, bool) built in makeResolveNonEmptyValue
+// / makeResolvePointers) decide whether a field is empty and hand back the
+// value to fold. The field's folder has been compiled for the field's type
+// (pointers stripped), so what a resolver hands back is its argument or a
+// dereference of it - never something it took the address of or allocated.
+
+func resolverResult(f *ssa.Function, memo map[*ssa.Function]string, depth int) string {
+	if v, ok := memo[f]; ok {
+		return v
+	}
+	memo[f] = ""
+	if depth > 4 || f.Blocks == nil || len(f.Params) == 0 {
+		return ""
+	}
+	var bad string
+	var derive func(v ssa.Value, d int) string
+	derive = func(v ssa.Value, d int) string {
+		if d > 8 {
+			return ""
+		}
+		switch x := v.(type) {
+		case *ssa.Parameter, *ssa.FreeVar, *ssa.Const:
+			return ""
+		case *ssa.Phi:
+			for _, e := range x.Edges {
+				if w := derive(e, d+1); w != "" {
+					return w
+				}
+			}
+		case *ssa.Extract:
+			return derive(x.Tuple, d+1)
+		case *ssa.UnOp:
+			return derive(x.X, d+1)
+		case *ssa.Call:
+			sc := x.Common().StaticCallee()
+			if sc != nil && funcPkgPath(sc) == "reflect" {
+				switch sc.Name() {
+				case "Addr":
+					return "takes the address of its argument (reflect.Value.Addr)"
+				case "New":
+					return "allocates a new value (reflect.New)"
+				case "Elem", "Field", "Index":
+					return derive(x.Common().Args[0], d+1)
+				}
+				return ""
+			}
+			// another resolver: its result as a function of its argument
+			var callee *ssa.Function
+			if sc != nil {
+				callee = sc
+			} else if mc, ok := x.Common().Value.(*ssa.MakeClosure); ok {
+				callee, _ = mc.Fn.(*ssa.Function)
+			} else {
+				for _, o := range origins(x.Common().Value) {
+					if mc, ok := o.(*ssa.MakeClosure); ok {
+						callee, _ = mc.Fn.(*ssa.Function)
+					}
+				}
+			}
+			if callee != nil && callee != f {
+				if w := resolverResult(callee, memo, depth+1); w != "" {
+					return w
+				}
+			}
+			for _, a := range x.Common().Args {
+				if w := derive(a, d+1); w != "" {
+					return w
+				}
+			}
+		}
+		return ""
+	}
+	for _, b := range f.Blocks {
+		for _, in := range b.Instrs {
+			if ret, ok := in.(*ssa.Return); ok && len(ret.Results) >= 1 {
+				if w := derive(ret.Results[0], 0); w != "" {
+					bad = w
+				}
+			}
+		}
+	}
+	memo[f] = bad
+	return bad
+}
+
+func resolverIdentity(p *core.Prog, r *core.Result) {
+	n := 0
+	memo := map[*ssa.Function]string{}
+	for _, root := range []string{"makeResolveNonEmptyValue", "makeResolvePointers"} {
+		rf := p.LookupFunc("gotype", root)
+		if rf == nil {
+			r.Undecided(".RESOLVER-IDENTITY", "gotype."+root, "resolver builder not found")
+			continue
+		}
+		for _, c := range rf.AnonFuncs {
+			sig := c.Signature
+			if sig.Params().Len() != 1 || sig.Results().Len() != 2 || sig.Params().At(0).Type().String() != "reflect.Value" || sig.Results().At(0).Type().String() != "reflect.Value" {
+				continue
+			}
+			n++
+			key := core.FuncKey(c)
+			if w := resolverResult(c, memo, 0); w != "" {
+				r.Fail(".RESOLVER-IDENTITY", key+"|result", p.Pos(c.Pos()), key+" hands back a value for which it "+w+": the field's folder was compiled for the field's own type and receives a pointer instead (reflect panics, e.g. 'Field on ptr Value', as soon as the field is not empty)", "")
+			} else {
+				r.Ok(".RESOLVER-IDENTITY", p.Pos(c.Pos()), key+": hands back its argument or a dereference of it")
+			}
+		}
+	}
+	r.Floor("omitempty_resolvers", n, 4)
+}
+
+// R20 NIL-FOLDER: a Folder implementation reached through a pointer may have
+// a value receiver; calling it through a nil pointer dereferences nil. Every
+// call of Folder.Fold on a value that came out of an interface{} or a
+// reflect.Value is behind a nil-pointer test (reflect.Value.IsNil) in the
+// same function.
+func nilFolder(p *core.Prog, r *core.Result) {
+	n := 0
+	for _, f := range p.ModFuncs() {
+		pk := core.FuncPkg(f)
+		if pk == nil || pk.Name() != "gotype" {
+			continue
+		}
+		for _, b := range f.Blocks {
+			for _, in := range b.Instrs {
+				c, ok := in.(*ssa.Call)
+				if !ok || !c.Common().IsInvoke() || c.Common().Method.Name() != "Fold" || c.Common().Method.Pkg() == nil || c.Common().Method.Pkg().Path() != core.ModPath+"/gotype" {
+					continue
+				}
+				// the receiver comes from a type assertion (dynamic value), not from a typed parameter
+				fromAssert := false
+				switch x := c.Common().Value.(type) {
+				case *ssa.TypeAssert:
+					fromAssert = true
+				case *ssa.Extract:
+					_, fromAssert = x.Tuple.(*ssa.TypeAssert)
+				}
+				if !fromAssert {
+					continue
+				}
+				n++
+				guarded := false
+				for _, b2 := range f.Blocks {
+					for _, i2 := range b2.Instrs {
+						c2, ok := i2.(*ssa.Call)
+						if !ok {
+							continue
+						}
+						sc := c2.Common().StaticCallee()
+						if sc == nil || sc.Name() != "IsNil" || funcPkgPath(sc) != "reflect" {
+							continue
+						}
+						// the nil outcome must not reach the call
+						if refs := c2.Referrers(); refs != nil {
+							for _, rf := range *refs {
+								if ifi, ok := rf.(*ssa.If); ok {
+									nilSucc := ifi.Block().Succs[0]
+									if !blockReaches(nilSucc, b) && nilSucc != b {
+										guarded = true
+									}
+								}
+								if phi, ok := rf.(*ssa.Phi); ok {
+									// short-circuit (Kind()==Ptr && IsNil()): follow the phi to its If
+									if prefs := phi.Referrers(); prefs != nil {
+										for _, pr := range *prefs {
+											if ifi, ok := pr.(*ssa.If); ok {
+												nilSucc := ifi.Block().Succs[0]
+												if !blockReaches(nilSucc, b) && nilSucc != b {
+													guarded = true
+												}
+											}
+										}
+									}
+								}
+							}
+						}
+					}
+				}
+				pos := p.Pos(c.Pos())
+				fkey := core.FuncKey(f)
+				if guarded {
+					r.Ok(".NIL-FOLDER", pos, fkey+": Folder.Fold on a dynamic value is behind a nil-pointer test")
+				} else {
+					r.Fail(".NIL-FOLDER", fkey+"|Fold", pos, fkey+" calls Folder.Fold on a value taken out of an interface{} / reflect.Value without a nil-pointer test: for a nil *T whose T implements Fold with a value receiver the call dereferences nil (runtime panic) instead of reporting null", "")
+				}
+			}
+		}
+	}
+	r.Floor("dynamic_folder_calls", n, 2)
+}
+
+func blockReaches(from, to *ssa.BasicBlock) bool {
+	seen := map[*ssa.BasicBlock]bool{}
+	work := []*ssa.BasicBlock{from}
+	for len(work) > 0 {
+		x := work[len(work)-1]
+		work = work[:len(work)-1]
+		if seen[x] {
+			continue
+		}
+		seen[x] = true
+		if x == to {
+			return true
+		}
+		work = append(work, x.Succs...)
+	}
+	return false
+}
